@@ -20,6 +20,7 @@ PLAN = {
            + [("subgraph", c, "quick", 1, ("fresh", "source")) for c in ("MolGraph", "CondensedReactionGraph")]
            + [("enantiomer", "StereoMolGraph", "quick", 1, ("fresh", "source")), ("enantiomer", "StereoCondensedReactionGraph", "quick", 1, ("fresh", "source"), 4)]
            + [("reactant", "CondensedReactionGraph", "quick", 1, ("fresh", "source"), 2), ("product", "CondensedReactionGraph", "quick", 1, ("fresh", "source"), 2)]
+           + [("reactant(stereo)", "StereoCondensedReactionGraph", "quick", 1, ("fresh", "source"), 4), ("product(stereo)", "StereoCondensedReactionGraph", "quick", 1, ("fresh", "source"), 4)]
            + [("reverse_reaction", "CondensedReactionGraph", "quick", 1, ("fresh", "source"), 1), ("reverse_reaction", "StereoCondensedReactionGraph", "quick", 1, ("fresh", "source"), 3)],
     "C17": [("subgraph(any size)", c, "quick", 1, ("view", "wf")) for c in ("MolGraph", "CondensedReactionGraph")]
            # the stereo classes add loops over the descriptor / stereo-change tables: side-car invariants, one task per loop
@@ -32,6 +33,7 @@ PLAN = {
             ("enantiomer", "StereoCondensedReactionGraph", "quick", 1, ("view", "wf", "fresh", "source"), 4)],
     # reverse_reaction: CRG one loop over the bonds, SCRG two more over the stereo-change tables of the copy
     "C08": [("reactant", "CondensedReactionGraph", "quick", 1, ("view", "wf", "source"), 2), ("product", "CondensedReactionGraph", "quick", 1, ("view", "wf", "source"), 2),
+            ("reactant(stereo)", "StereoCondensedReactionGraph", "quick", 1, ("view", "wf", "source"), 4), ("product(stereo)", "StereoCondensedReactionGraph", "quick", 1, ("view", "wf", "source"), 4),
             ("reverse_reaction", "CondensedReactionGraph", "quick", 1, ("view", "wf", "source"), 1),
             ("reverse_reaction", "StereoCondensedReactionGraph", "quick", 1, ("view", "wf", "source"), 3)],
     "C11": [("relabel_atoms(copy=True)", c, "quick", 1, ("view", "wf", "source")) for c in ("MolGraph", "CondensedReactionGraph")]
@@ -101,7 +103,7 @@ def tasks(pid, tier, timeout):
 
 def functions(world, pid):
     seen, out = set(), []
-    names = {"copy": "copy", "copy_constructor": "__init__", "subgraph": "subgraph", "subgraph(any size)": "subgraph", "enantiomer": "enantiomer", "relabel_atoms(copy=True)": "relabel_atoms", "relabel_atoms(copy=False)": "relabel_atoms", "reverse_reaction": "reverse_reaction", "reactant": "reactant", "product": "product"}
+    names = {"copy": "copy", "copy_constructor": "__init__", "subgraph": "subgraph", "subgraph(any size)": "subgraph", "enantiomer": "enantiomer", "relabel_atoms(copy=True)": "relabel_atoms", "relabel_atoms(copy=False)": "relabel_atoms", "reverse_reaction": "reverse_reaction", "reactant": "reactant", "product": "product", "reactant(stereo)": "reactant", "product(stereo)": "product"}
     if pid == "C06":
         out.append(src_info("stereodescriptors.py", "_StereoMixin.invert"))
     if pid == "C11":
